@@ -14,7 +14,7 @@ RULE = ("seeded (decomposition, tensor, rank specification, options, stopping pa
 ASSUMPTIONS = ["expected ranks re-derived independently for int/list specifications; for 'same'/fraction specifications only "
                "consistency with validate_*_rank and with the data shape is asserted",
                "HOOI orthonormality is asserted for SVD init or after at least one sweep (a random init returned untouched by n_iter_max=0 is not HOOI output)"]
-GENS = ["cp_norm", "cp_shape", "tucker", "partial_tucker", "tt", "ttm", "tr", "tr_als", "parafac2", "cmtf"]
+GENS = ["cp_norm", "cp_shape", "tucker", "partial_tucker", "tt", "ttm", "tr", "tr_als", "parafac2", "cmtf", "tucker_norm"]
 CASE_TIMEOUT = {"quick": 120, "thorough": 120}
 
 
@@ -143,6 +143,36 @@ def _run_case(case, ctx):
             ctx.count("clause/unit-weights")
             if not np.all(w == 1):
                 viol(algo, "unit-weights", cls_k, "normalize_factors=False but weights are %r" % w, desc)
+        return
+
+    if g == "tucker_norm":
+        # "...unit norm with the scale carried by the weights (or core)": the two non-negative Tucker algorithms, both stopping paths
+        algo = gen.choice(rs, ["nn_tucker", "nn_tucker_hals"])
+        data = decomp.make_data(rs, algo, dt, cls=gen.choice(rs, ["nonneg-lowrank", "nonneg"]), order=int(rs.randint(2, 4)))
+        X = data["X"]
+        rank = [int(rs.randint(1, min(s_, 3) + 1)) for s_ in X.shape]
+        path = gen.choice(rs, ["converged", "cap"])
+        n_iter = int(gen.choice(rs, [0, 1, 2, 5])) if path == "cap" else (300 if algo == "nn_tucker" else 40)
+        tolv = 1e-100 if path == "cap" else float(gen.choice(rs, [1e-2, 1e-3, 1e-4]))
+        seed = int(rs.randint(0, 2 ** 31 - 1))
+        opts = {"init": gen.choice(rs, ["svd", "random"]), "normalize_factors": True}
+        desc = {"algo": algo, "shape": list(X.shape), "rank": rank, "path": path, "n_iter_max": n_iter, "tol": tolv, "dtype": dt, "init": opts["init"]}
+        r = decomp.run(algo, data, rank, n_iter, dict(opts), seed, tol=tolv)
+        nerr = len(r["errors"] or [])
+        stopped_early = nerr < n_iter
+        ctx.count("stop/%s" % ("converged" if stopped_early else "cap"))
+        core, fs = r["decomp"]
+        ctx.nontriv(desc)
+        ctx.sample({"case": desc}, 2)
+        ctx.count("clause/normalised-columns")
+        ctx.count("clause/tucker-normalised-columns")
+        for i, f in enumerate(fs):
+            nr = np.linalg.norm(ref.hp(f), axis=0)
+            bad = [c for c in range(nr.size) if not (abs(nr[c] - 1) <= 100 * eps or nr[c] == 0)]
+            if bad:
+                viol(algo, "normalised-columns", ("converged" if stopped_early else ("cap0" if n_iter == 0 else "cap")), "normalize_factors=True but mode-%d columns %s have norms %s (run %s after %d values)" % (
+                    i, bad, nr[bad], "stopped by tol" if stopped_early else "hit the cap", nerr), desc)
+                return
         return
 
     if g in ("tucker", "partial_tucker"):
